@@ -416,6 +416,46 @@ func LongRuns(target string, ns []int, gzip bool) Family {
 	}}
 }
 
+// MidRange sweeps the sizes between the small exhaustive cases and the
+// boundary cases, one file per size: every record count 1..maxN (alternating
+// nulls; default page size, one page, pages of 100), every list length
+// 0..maxN in one record, every string length 0..maxN (mapped onto the
+// target's string leaves).  A threshold the code itself introduces anywhere in
+// that range (a buffer of 300 entries, a count of 1000, ...) is crossed.
+func MidRange(target string, maxN int) Family {
+	return Family{Name: "M-" + target, Gen: func(c *fw.Ctx, emit Emit) {
+		t := sut.Get(target)
+		root := t.Schema()
+		for n := 1; n <= maxN; n++ {
+			f := &gen.Filler{}
+			recs := make([]refpq.Val, n)
+			for i := range recs {
+				recs[i] = patterned(root, "alternating", i, f)
+			}
+			emit(fmt.Sprintf("count%d|p0", n), t, recs, []int{n}, 0, sut.Snappy)
+			if n%3 == 0 {
+				emit(fmt.Sprintf("count%d|pn", n), t, recs, []int{n}, n, sut.Uncompressed)
+			}
+			if n > 100 && n%3 == 1 {
+				emit(fmt.Sprintf("count%d|p100", n), t, recs, []int{n}, 100, sut.Snappy)
+			}
+		}
+		if hasRepeated(root) {
+			for n := 0; n <= maxN; n++ {
+				f := &gen.Filler{}
+				recs := []refpq.Val{bigList(root, n, f), patterned(root, "lists-2", 1, f)}
+				emit(fmt.Sprintf("list%d", n), t, recs, []int{2}, 0, sut.Snappy)
+			}
+		}
+		for n := 0; n <= maxN; n++ {
+			f := &gen.Filler{}
+			r0 := mapStrings(root, patterned(root, "none-null", 0, f), func(string) string { return strings.Repeat("z", n) })
+			recs := []refpq.Val{r0, patterned(root, "none-null", 1, f)}
+			emit(fmt.Sprintf("strlen%d", n), t, recs, []int{2}, 0, sut.Uncompressed)
+		}
+	}}
+}
+
 func hasRepeated(n *refpq.Node) bool {
 	for _, l := range n.Leaves() {
 		if l.RepLevel > 0 {
@@ -691,6 +731,7 @@ func ForC01(thorough bool) []Family {
 			BoundaryProduct("flat3", 3, 4, codecs2, 0),
 			OptionalBoolPacking(7),
 			RequiredBoolPacking(8, 25),
+			MidRange("mini", 1100),
 			ValueSweep("flat24", false),
 			ValueSweep("person", false),
 			LongRuns("mini", []int{8, 9, 504, 505, 1000, 1001, 8191, 8192, 8193}, true),
@@ -731,6 +772,8 @@ func ForC01(thorough bool) []Family {
 		BoundaryProduct("flat3", 4, 5, codecs2, 0),
 		OptionalBoolPacking(9),
 		RequiredBoolPacking(11, 40),
+		MidRange("mini", 4200),
+		MidRange("person", 1100),
 		ValueSweep("flat24", true),
 		ValueSweep("person", true),
 		LongRuns("mini", long, true),
@@ -809,6 +852,7 @@ func ForC03(thorough bool) []Family {
 			NestedLists("repetition", []int{0, 1, 2, 3}),
 			NestedLists("nest3", []int{0, 1, 2, 3}),
 			LongRuns("mini", []int{8, 9, 504, 505, 1000, 1001, 8191, 8192, 8193}, false),
+			MidRange("mini", 1100),
 			LongRuns("flat3", []int{504, 505, 1001}, false),
 			LongRuns("document", []int{8, 9, 505}, false),
 		}
